@@ -46,12 +46,18 @@ def r_df_columns(ctx):
                 cols[ent[1][0][1]] = ent[1][1]
         for label, attr in DF_COLUMNS.items():
             col = cols.get(label)
-            ok = col is not None and col[0] == "list" and len(col[1]) == 1 and col[1][0][0] == "each" and len(col[1][0][1]) == 1 \
-                and not col[1][0][2] and norm(col[1][0][1][0][3]) == S("self.tasks")
-            if ok:
+            shape = col is not None and col[0] == "list" and len(col[1]) == 1 and col[1][0][0] == "each" and len(col[1][0][1]) == 1 \
+                and not col[1][0][2]
+            ok = False
+            if shape and norm(col[1][0][1][0][3]) == S("self.tasks"):
+                # one row per key of the task dict
                 e = ("elem", col[1][0][1][0])
                 want = e if attr is None else A(("idx", S("self.tasks"), e), attr)
                 ok = col[1][0][3] == want
+            elif shape and norm(col[1][0][1][0][3]) == norm(("mcall", S("self.tasks"), "values", (), ())):
+                # one row per value of the task dict (its key is the task solution's name: add_task_solution)
+                e = ("elem", col[1][0][1][0])
+                ok = col[1][0][3] == A(e, "name" if attr is None else attr)
             if ok:
                 ctx.ok("R-DF-COLUMNS", f"column {label!r} <- {'task name' if attr is None else attr}, one row per task", nontrivial=True)
             else:
@@ -283,7 +289,16 @@ def r_json_fields(ctx):
         ctx.violation("R-NO-MODULE-STATE", "problem._object_types", "registry written at run time", "", "processscheduler/problem.py")
 
 
-C16_RULES = [r_df_columns, r_excel_coord, r_smt_same_handle, r_json_fields]
+def r_smt_stack_is_the_problem(ctx):
+    """the SMT-LIB text is the solver handle's current assertion stack (R-SMT-SAME-HANDLE): it denotes the problem only if no
+    earlier solve left anything on that stack - every scope pushed is popped on every exit (R-PUSH-POP) and answering
+    methods assert only inside pushed scopes (R-SCOPED-ASSERT); both rules are shared with C13"""
+    from rules import driver
+    driver.r_push_pop(ctx)
+    driver.r_scoped_assert(ctx)
+
+
+C16_RULES = [r_df_columns, r_excel_coord, r_smt_same_handle, r_json_fields, r_smt_stack_is_the_problem]
 
 
 # ---------------------------------------------------------------------------
